@@ -7,6 +7,19 @@
    = final size"; it is discharged per statement kind by C06 (directive size lambdas vs emitted bytes)
    and C01 (instructions: 2 + 2 * extension words), and checked on every chunk of every real run by the
    hook-trace correspondence (tools/props/c02.py). *)
+(* What the hypothesis [consistent] does and does not cover (audit note):
+   - for a deferred SIZED statement it says announced size = final size; it is discharged for the data
+     directives by C06 (C02_directive_block_invariant), for instructions by the operand-form lemma below
+     (a statement about Model/Insns; that the code announces "2 + 2 per extension word" is pinned by
+     gen_insns.py and checked on every traced chunk), and for whole programs by R_layout / R_sized_consistent;
+   - for a deferred UNSIZED statement (.ascii, .blkb/.blkw, .even/.odd/.align, '. =' skips, .repeat,
+     insert_file, .include) the model takes the advance to be the final length, because that is what
+     Deferred.length() is in the code: `len(wait(self))`.  This is an assumption about the code's
+     laziness, not a theorem; it is exactly where defect 31bd646 lived (the skip read a later address),
+     and it is checked on every chunk of every traced run (judge_block compares wait(chunk.length())
+     with len(wait(chunk)), and the tiling oracle compares addresses with where bytes land);
+   - labels and '.' are [Silent] placements here; "label value = its placement address" is R_layout's
+     statement for the reference assembler and the hook trace's for the code. *)
 From Coq Require Import List ZArith Bool.
 From Verif Require Import Base.Res.
 From Verif Require Import Model.Block Proofs.BlockP Model.Directives Proofs.BlockDirectives.
